@@ -6,7 +6,7 @@ use serde_yaml::Value as Y;
 use crate::common::*;
 use crate::engine::{self, guarded, Load, Switches};
 use crate::gen;
-use crate::model::DocVal;
+use crate::model::{DObj, DocVal};
 use crate::spec::*;
 
 pub const ID: &str = "C14";
@@ -85,6 +85,14 @@ pub fn judge(case: &Case) -> Outcome {
         Ok(o) => o,
         Err(p) => return Outcome::Violation(format!("optimise panicked: {p}")),
     };
+    // the optimised rule is serialised with its written condition, so what it loads to is the rule
+    // as written: the two have to agree (up to the known findings K1 / K2, as in C01)
+    {
+        let rr = crate::reference::load_rule_text(text, false).ok();
+        if let Err(o) = crate::checks::c02::optimised_agreement(text, &rule, rr.as_ref(), "", &case.docs) {
+            return o;
+        }
+    }
     for (which, r) in [("the loaded rule", &rule), ("the optimised rule", &optimised)] {
         let ser = match guarded(|| serde_yaml::to_string(r)) {
             Ok(Ok(s)) => s,
@@ -141,6 +149,8 @@ const SENSITIVE: &[&str] = &[
     "yes", "no", " x", "x ", " ", "a: b", "- x", "#c", "a #c", "%", "@", "&a", "!t", "|", ">", ">=1", "=1", "<2.5",
     "é", "日本", "a\tb", "a\nb", "\u{1}", "\u{85}", "{a}", "[a]", "a,b", "i*X*", "'", "\"", "''", "\"\"", ": ", "?",
     "i", ".", "..", "0", "00", "0.0", ".5", "+1", "1_000", "0o7", "2001-01-01", "=", "<<",
+    // anchored literal regexes (an optimiser may turn them into plain searches)
+    "i?^k$", "i?^kelvin$", "i?s$", "?^K", "i?^mass$",
 ];
 
 fn sensitive_string() -> BoxedStrategy<String> {
@@ -296,6 +306,12 @@ pub fn run(tier: &str, seed: u64) -> i32 {
                 d.set("f2", DocVal::Str(s.trim_matches(|c| c == '*' || c == '\'' || c == '"').to_string()));
                 docs.push(d);
             }
+            for t in ["\u{212a}", "\u{17f}", "\u{212a}elvin", "mas\u{17f}", "K", "S"] {
+                let mut d = DObj::default();
+                d.set("f1", DocVal::s(t));
+                d.set("f2", DocVal::s(t));
+                docs.push(d);
+            }
             c.docs = docs;
             c.switches = Some(*sw);
             c.extra = serde_json::json!({"sensitive": changed || !examples.is_empty()});
@@ -316,7 +332,7 @@ pub fn run(tier: &str, seed: u64) -> i32 {
             (
                 gen::rule(gen::RuleOpts::default()),
                 prop::collection::vec(gen::doc_recipe(), 4),
-                0u8..4,
+                0u8..6,
                 any::<u16>(),
                 any::<bool>(),
             )
@@ -352,9 +368,27 @@ pub fn run(tier: &str, seed: u64) -> i32 {
                     let with = what.replace("[]", if *pick % 2 == 0 { "~" } else { "" });
                     text = text.replacen(what, with.trim_end(), 1);
                 }
-                _ => {
+                3 => {
                     let what = if *second { "true_positives: []" } else { "true_negatives: []" };
                     let with = what.replace("[]", ["{}", "''", "0", "[~]"][(*pick % 4) as usize]);
+                    text = text.replacen(what, &with, 1);
+                }
+                // anchors, aliases and merge keys: text and value have to treat them alike
+                4 => {
+                    let extra = if *second {
+                        "  Zanchor: &zz\n    f1: a\n  Zmerge:\n    <<: *zz\n    f2: b\n"
+                    } else {
+                        "  Zanchor: &zz\n    f1: a\n  Zalias: *zz\n"
+                    };
+                    text = text.replacen("detection:\n", &format!("detection:\n{extra}"), 1);
+                }
+                _ => {
+                    let what = if *second { "true_positives: []" } else { "true_negatives: []" };
+                    let with = if *pick % 2 == 0 {
+                        what.replace("[]", "\n- &ex\n  f1: a\n- *ex")
+                    } else {
+                        what.replace("[]", "\n- &ex\n  f1: a\n- <<: *ex\n  f2: b")
+                    };
                     text = text.replacen(what, &with, 1);
                 }
             }
